@@ -68,7 +68,7 @@ impl Check for C13 {
         "exploration"
     }
     fn rule_text(&self) -> String {
-        "arrival histories of up to 200 attempts over 1-40 keys (a sixth of them address scans where nearly every attempt uses a fresh key), limit 1-20, duration from {1 ms, 1 s, 8 s, 60 s}, inter-arrival times zero / sub-window / exactly d / d+-1 ns / 2d / 4d / long idle gaps, bursts and many one-shot keys, run against the real RateLimiter under tokio virtual time; each evaluation also re-runs the history with rejected attempts duplicated, and per key in isolation. Non-trivial = at least one attempt was rejected and at least one window rolled; distinct = distinct hash of the (key, decision) sequence with coarse timing class.".into()
+        "arrival histories of up to 200 attempts over 1-40 keys (a sixth of them address scans where nearly every attempt uses a fresh key), limit 1-20, duration from {1 ms, 1 s, 8 s, 60 s} or (a third) any whole second up to 600 s / any millisecond below 1 s / an odd value, inter-arrival times zero / sub-window / exactly d / d+-1 ns / 2d / 4d / long idle gaps, bursts and many one-shot keys, run against the real RateLimiter under tokio virtual time; each evaluation also re-runs the history with rejected attempts duplicated, and per key in isolation. Non-trivial = at least one attempt was rejected and at least one window rolled; distinct = distinct hash of the (key, decision) sequence with coarse timing class.".into()
     }
     fn assumptions(&self) -> Vec<String> {
         vec![
@@ -87,7 +87,15 @@ impl Check for C13 {
     }
 
     fn generate(&self, rng: &mut Rng, _index: u64, _tier: Tier) -> LimSc {
-        let d = *rng.pick(&[1_000_000u64, 1_000_000_000, 8_000_000_000, 60_000_000_000]);
+        let mut d = *rng.pick(&[1_000_000u64, 1_000_000_000, 8_000_000_000, 60_000_000_000]);
+        // any window length an operator may configure: whole seconds up to ten minutes, some milliseconds, odd values
+        if rng.chance(1, 3) {
+            d = match rng.below(4) {
+                0 | 1 => rng.range(1, 600) * 1_000_000_000,
+                2 => rng.range(1, 999) * 1_000_000,
+                _ => rng.range(1_000, 3_000_000_000),
+            };
+        }
         let limit = *rng.pick(&[1usize, 1, 2, 3, 5, 10, 20]);
         let nkeys = *rng.pick(&[1u64, 1, 2, 3, 8, 40]);
         let nmax = if rng.chance(1, 4) { 200 } else { 40 };
